@@ -355,13 +355,13 @@ type SparseConstIntVectorJointIterator struct {
   idx int
   s1 ConstInt
   s2 ConstScalar
+  ok bool
 }
 func (obj *SparseConstIntVectorJointIterator) Index() int {
   return obj.idx
 }
 func (obj *SparseConstIntVectorJointIterator) Ok() bool {
-  return !(obj.s1.GetInt() == int(0)) ||
-         !(obj.s2.GetInt() == int(0))
+  return obj.ok
 }
 func (obj *SparseConstIntVectorJointIterator) Next() {
   ok1 := obj.it1.Ok()
@@ -382,6 +382,9 @@ func (obj *SparseConstIntVectorJointIterator) Next() {
       obj.s2 = obj.it2.GetConst()
     }
   }
+  // the iterator is valid as long as one of the vectors delivered an entry,
+  // regardless of its value
+  obj.ok = ok1 || ok2
   if obj.s1 != ConstInt(0) {
     obj.it1.Next()
   }
@@ -404,6 +407,7 @@ func (obj *SparseConstIntVectorJointIterator) CloneConstJointIterator() VectorCo
   r.idx = obj.idx
   r.s1 = obj.s1
   r.s2 = obj.s2
+  r.ok = obj.ok
   return &r
 }
 /* math
